@@ -11,6 +11,11 @@
                    are placeholders the glue substitutes).  Two families keep the product small: A varies the
                    root (title x property name x property schema x description) over fixed definitions,
                    B varies one definition (name x schema) under a fixed root that references it.
+                   Family C puts ONE odd string (lone CR, CR LF, tab, NUL, `]]`, `--`, long-bracket opener,
+                   non-ASCII, trailing backslash, quote, newline, CR next to a quote, ...) into ONE string
+                   position of an otherwise plain schema, for every position from which a string reaches the
+                   annotation text (title, definition name, property names, enum / const values inline and in
+                   definitions, every kind of description) -- see Slots / SchemaC.
    Mode = "judge": the harness recorded for every case: panic or not, the number of syntax errors the Lua
                    parser reports for `annotation_text`, and whether a `---@class` / `---@alias` with the
                    reported `root_type_name` is declared.  TLC evaluates NoPanic, ParsesClean, DeclaresRoot on
@@ -64,8 +69,44 @@ SchemaA(t, n, x, d) == WithTitle([type |-> "object", properties |-> (n :> WithDe
 SchemaB(t, dn, x, d) == WithTitle([type |-> "object", properties |-> ("f" :> Ref(dn))] @@ ("$defs" :> (dn :> WithDesc(x, d))), t)
 TitlesB == <<"Config", "none">>
 DescsB == <<"none", "two<nl>lines">>
-Schema == IF fam = "A" THEN SchemaA(Titles[it], Names[in], Nodes[ix], Descs[id])
-          ELSE SchemaB(TitlesB[it], DefNames[in], Nodes[ix], DescsB[id])
+
+\* family C: one odd string in one string position
+OddStrs == <<"a<cr>b", "<cr>", "a<cr><nl>b", "a<tab>b", "a<nul>b", "a]]b", "]]", "--x", "a--[[b", "<e2><e4>", "a<bs>",
+             " a ", "#x", "@x", "<q>", "<nl>", "<cr>q<q>", "a<cr>b<bs>", "<u2028>", "a<vt>b<ff>c">>
+Slots == <<"title", "defname-alias", "defname-class", "propname", "propname-required", "defprop", "enum-inline",
+           "enum-def", "const-inline", "oneof-const-inline", "oneof-const-def", "variant-desc", "typevariant-desc",
+           "anyof-desc", "prop-desc", "root-desc", "def-desc-class", "def-desc-enum", "def-desc-alias", "enum-in-array",
+           "enum-in-addl", "const-def-prop">>
+Obj(props) == [type |-> "object", properties |-> props]
+Defs(d) == ("$defs" :> d)
+RootRef == Obj("f" :> Ref("D"))
+SchemaC(slot, s) ==
+  CASE slot = "title" -> [title |-> s] @@ Obj("p" :> T("string"))
+    [] slot = "defname-alias" -> Obj("f" :> Ref(s)) @@ Defs(s :> [enum |-> <<"a", "b">>])
+    [] slot = "defname-class" -> Obj("f" :> Ref(s)) @@ Defs(s :> Obj("p" :> T("string")))
+    [] slot = "propname" -> Obj(s :> T("string"))
+    [] slot = "propname-required" -> Obj(s :> T("integer")) @@ [required |-> <<s>>]
+    [] slot = "defprop" -> RootRef @@ Defs("D" :> Obj(s :> T("string")))
+    [] slot = "enum-inline" -> Obj("p" :> [enum |-> <<s, "b">>])
+    [] slot = "enum-def" -> RootRef @@ Defs("D" :> [enum |-> <<"a", s>>])
+    [] slot = "const-inline" -> Obj("p" :> [const |-> s])
+    [] slot = "oneof-const-inline" -> Obj("p" :> [oneOf |-> <<[const |-> s], [const |-> "b"]>>])
+    [] slot = "oneof-const-def" -> RootRef @@ Defs("D" :> [oneOf |-> <<[const |-> s, description |-> "d"], [const |-> "b"]>>])
+    [] slot = "variant-desc" -> RootRef @@ Defs("D" :> [oneOf |-> <<[const |-> "a", description |-> s], [const |-> "b"]>>])
+    [] slot = "typevariant-desc" -> RootRef @@ Defs("D" :> [oneOf |-> <<[type |-> "string", description |-> s], T("integer")>>])
+    [] slot = "anyof-desc" -> RootRef @@ Defs("D" :> [anyOf |-> <<[type |-> "string", description |-> s], T("null")>>])
+    [] slot = "prop-desc" -> Obj("p" :> [type |-> "string", description |-> s])
+    [] slot = "root-desc" -> [title |-> "Config", description |-> s] @@ Obj("p" :> T("string"))
+    [] slot = "def-desc-class" -> RootRef @@ Defs("D" :> ([description |-> s] @@ Obj("p" :> T("string"))))
+    [] slot = "def-desc-enum" -> RootRef @@ Defs("D" :> [enum |-> <<"a", "b">>, description |-> s])
+    [] slot = "def-desc-alias" -> RootRef @@ Defs("D" :> [type |-> "string", description |-> s])
+    [] slot = "enum-in-array" -> Obj("p" :> [type |-> "array", items |-> [enum |-> <<s>>]])
+    [] slot = "enum-in-addl" -> Obj("p" :> [type |-> "object", additionalProperties |-> [enum |-> <<s, "b">>]])
+    [] slot = "const-def-prop" -> RootRef @@ Defs("D" :> Obj("p" :> [const |-> s]))
+
+Schema == CASE fam = "A" -> SchemaA(Titles[it], Names[in], Nodes[ix], Descs[id])
+            [] fam = "B" -> SchemaB(TitlesB[it], DefNames[in], Nodes[ix], DescsB[id])
+            [] fam = "C" -> SchemaC(Slots[it], OddStrs[in])
 
 \* ---- result predicates.  A record: [id, panic, msg, errors, declares, root]
 NoPanic(r) == r.panic = 0
@@ -75,17 +116,18 @@ DeclaresRoot(r) == r.declares = 1
 Rec == IF Mode = "judge" THEN ndJsonDeserialize(IOEnv.SCHEMA_RESULTS) ELSE <<>>
 
 Init == IF Mode = "gen"
-        THEN /\ fam \in {"A", "B"}
-             /\ it \in 1..(IF fam = "A" THEN Len(Titles) ELSE Len(TitlesB))
-             /\ in \in 1..(IF fam = "A" THEN Len(Names) ELSE Len(DefNames))
-             /\ ix \in 1..Len(Nodes)
-             /\ id \in 1..(IF fam = "A" THEN Len(Descs) ELSE Len(DescsB))
+        THEN /\ fam \in {"A", "B", "C"}
+             /\ it \in 1..(CASE fam = "A" -> Len(Titles) [] fam = "B" -> Len(TitlesB) [] fam = "C" -> Len(Slots))
+             /\ in \in 1..(CASE fam = "A" -> Len(Names) [] fam = "B" -> Len(DefNames) [] fam = "C" -> Len(OddStrs))
+             /\ ix \in 1..(IF fam = "C" THEN 1 ELSE Len(Nodes))
+             /\ id \in 1..(CASE fam = "A" -> Len(Descs) [] fam = "B" -> Len(DescsB) [] fam = "C" -> 1)
              /\ idx = 0
         ELSE fam = "" /\ it = 0 /\ in = 0 /\ ix = 0 /\ id = 0 /\ idx \in 1..Len(Rec)
 Next == UNCHANGED vars
 Spec == Init /\ [][Next]_vars
 
-Emit == Mode = "gen" => PrintT(<<"CASE", ToJson([fam |-> fam, schema |-> Schema])>>)
+Emit == Mode = "gen" => PrintT(<<"CASE", ToJson([fam |-> fam, schema |-> Schema,
+                                                  slot |-> IF fam = "C" THEN Slots[it] ELSE "", odd |-> IF fam = "C" THEN OddStrs[in] ELSE ""])>>)
 
 Judge == Mode = "judge" =>
   LET r == Rec[idx] IN
